@@ -125,6 +125,34 @@ func (s *Store) Push(b bpv7.Bundle) error {
 			biStore.Parts = append(biStore.Parts, compPart)
 			return s.bh.Update(biStore.Id, biStore)
 		}
+	} else if biStore.Fragmented {
+		log.WithFields(log.Fields{
+			"bundle": b.ID().String(),
+		}).Info("Received whole bundle, replacing its stored fragments")
+
+		// The whole bundle supersedes the fragments collected so far. It is written first, then the record is
+		// switched over, and the fragments' files are removed at last.
+		if err := bi.Parts[0].storeBundle(b); err != nil {
+			return err
+		}
+
+		fragmentParts := biStore.Parts
+		biStore.Fragmented = false
+		biStore.Parts = bi.Parts
+		if err := s.bh.Update(biStore.Id, biStore); err != nil {
+			return err
+		}
+
+		for _, part := range fragmentParts {
+			if err := part.deleteBundle(); err != nil {
+				log.WithFields(log.Fields{
+					"bundle": b.ID().String(),
+					"file":   part.Filename,
+					"error":  err,
+				}).Warn("Failed to delete BundlePart")
+			}
+		}
+		return nil
 	} else {
 		log.WithFields(log.Fields{
 			"bundle": b.ID().String(),
